@@ -158,3 +158,128 @@ def oracle_c19(op, kv, res, trace, flags):
 
 def nontrivial_c19(op, kv):
     return len(kv.get("x", "")) >= 6
+
+# --------------------------------------------------------------------------
+# C01 / C02 / C07: memchr family on one backend
+# --------------------------------------------------------------------------
+NEEDLE_SETS = {
+    1: [[0x61], [0x00], [0x80], [0xFF]],
+    2: [[0x61, 0x62], [0x00, 0xFF], [0x80, 0x80], [0xFF, 0x7F]],
+    3: [[0x61, 0x62, 0x63], [0x00, 0x80, 0xFF], [0x61, 0x61, 0x61], [0x01, 0xFE, 0x80]],
+}
+BACKENDS_X86 = ["swar", "sse2", "avx2", "top"]
+
+def interesting_positions(n, a):
+    ps = set([0, 1, 2, n // 2, n - 1, n - 2])
+    for B in (8, 16, 32):
+        c0 = B - (a % B)
+        e0 = n - ((a + n) % B)         # aligned-down end
+        for U in (1, 2, 4):
+            for d in (-1, 0, 1):
+                ps.update([c0 + d, c0 + U * B + d, c0 + 2 * U * B + d, e0 + d, e0 - U * B + d, e0 - 2 * U * B + d])
+        for d in (-1, 0, 1):
+            ps.update([B + d, n - B + d, n - 2 * B + d, 2 * B + d])
+    return sorted(p for p in ps if 0 <= p < n)
+
+def mk_hay(n, filler, marks):
+    h = bytearray([filler]) * n
+    for (p, b) in marks:
+        if 0 <= p < n:
+            h[p] = b
+    return bytes(h)
+
+def gen_memchr(op, tier, rng, backends=BACKENDS_X86):
+    """op in find|rfind|count"""
+    cases = []
+    quick = tier == "quick"
+    if quick:
+        lens = sorted(set(list(range(0, 50)) + [63, 64, 65, 79, 80, 95, 96, 97, 127, 128, 129, 130, 159, 160, 161, 191,
+                                                   192, 200, 255, 256, 257, 258, 287, 288, 300, 326]))
+        aligns = [0, 1, 7, 15, 17, 31, 33, 63]
+    else:
+        lens = list(range(0, 331))
+        aligns = list(range(64))
+    arities = [1] if op == "count" else [1, 2, 3]
+    k = 0
+    for be in backends:
+        for ar in arities:
+            sets = NEEDLE_SETS[ar]
+            for n in lens:
+                al = aligns if (not quick) else [aligns[(n + j * 3 + ar) % len(aligns)] for j in range(2)]
+                if not quick and n > 70:
+                    al = [aligns[(n * 7 + j * 11 + ar) % 64] for j in range(6)]
+                for a in al:
+                    poss = interesting_positions(n, a)
+                    if quick and len(poss) > 10:
+                        poss = [poss[(k + j * 5) % len(poss)] for j in range(8)]
+                    elif not quick and n > 70 and len(poss) > 24:
+                        poss = [poss[(k + j * 3) % len(poss)] for j in range(24)]
+                    ns = sets[k % len(sets)]
+                    nshex = hexs(bytes(ns))
+                    filler = 0x78
+                    # no match
+                    cases.append(f"{op} be={be} ns={nshex} a={a} h={hexs(mk_hay(n, filler, []))}")
+                    for pi, p in enumerate(sorted(set(poss))):
+                        b = ns[(pi + k) % len(ns)]
+                        marks = [(p, b)]
+                        # a second occurrence on the far side, so that "first"/"last" matters
+                        if pi % 3 == 0:
+                            q = (n - 1 - (pi % 5)) if op != "rfind" else (pi % 5)
+                            marks.append((q, ns[(pi + 1) % len(ns)]))
+                        if pi % 4 == 1:
+                            marks.append((p + (1 if op != "rfind" else -1), ns[0]))
+                        cases.append(f"{op} be={be} ns={nshex} a={a} h={hexs(mk_hay(n, filler, marks))}")
+                    k += 1
+                # dense patterns (matter for count and for mask->offset conversion)
+                a = aligns[(n * 5 + ar) % len(aligns)]
+                ns = sets[(n + ar) % len(sets)]
+                nshex = hexs(bytes(ns))
+                for dens in ([1, 2, 3, 5] if (quick and n % 4 == 0) or not quick else []):
+                    h = bytes((ns[i % len(ns)] if i % dens == 0 else 0x78) for i in range(n))
+                    cases.append(f"{op} be={be} ns={nshex} a={a} h={hexs(h)}")
+                if n % 8 == 0 or not quick:
+                    # flush against guard pages
+                    for fl in (1, 2):
+                        aa = 0 if fl == 1 else (4096 - n) % 4096
+                        h = mk_hay(n, 0x78, [(n - 1, ns[0])] if n and op != "rfind" else [(0, ns[0])] if n else [])
+                        cases.append(f"{op} be={be} ns={nshex} a={aa} fl={fl} h={hexs(h)}")
+                        cases.append(f"{op} be={be} ns={nshex} a={aa} fl={fl} h={hexs(mk_hay(n, 0x78, []))}")
+    # seeded random, longer haystacks
+    nr = 400 if quick else 6000
+    for _ in range(nr):
+        be = rng.choice(backends)
+        ar = 1 if op == "count" else rng.choice([1, 2, 3])
+        ns = [rng.choice([0, 0x80, 0xFF, 0x61, 0x62, rng.randrange(256)]) for _ in range(ar)]
+        n = rng.choice([rng.randrange(0, 100), rng.randrange(0, 700), rng.randrange(0, 4096 if not quick else 1200)])
+        dens = rng.choice([0, 0, 1, 2, 8, 64, 500])
+        h = bytearray(rng.randrange(256) for _ in range(n))
+        for i in range(n):
+            if h[i] in ns:
+                h[i] = 0x78 if 0x78 not in ns else 0x79
+        if dens and n:
+            for _ in range(max(1, n // dens)):
+                h[rng.randrange(n)] = rng.choice(ns)
+        cases.append(f"{op} be={be} ns={hexs(bytes(ns))} a={rng.randrange(4096)} h={hexs(bytes(h))}")
+    return cases
+
+def oracle_memchr(op, kv, res, trace, flags):
+    ns = bytes.fromhex(kv["ns"]); h = bytes.fromhex(kv.get("h", ""))
+    idx = [i for i, b in enumerate(h) if b in ns]
+    if op == "find":
+        want = f"Some({idx[0]})" if idx else "None"
+    elif op == "rfind":
+        want = f"Some({idx[-1]})" if idx else "None"
+    else:
+        want = str(len(idx))
+    if res != want:
+        return f"{op}[{kv.get('be')}] returned {res}, expected {want} (len {len(h)}, needles {kv['ns']})"
+    if flags:
+        return f"{op}[{kv.get('be')}] load outside the haystack or misaligned: {flags}"
+    return None
+
+def nontrivial_memchr(op, kv):
+    return len(kv.get("h", "")) >= 32   # at least 16 bytes: reaches vector code
+
+def gen_c01(tier, rng): return gen_memchr("find", tier, rng)
+def gen_c02(tier, rng): return gen_memchr("rfind", tier, rng)
+def gen_c07(tier, rng): return gen_memchr("count", tier, rng)
